@@ -644,9 +644,10 @@ class MoveModule:
                 and import_stmt.import_info.get_imported_resource(context)
                 == moving_module
             ):
+                # new_name is absolute, whatever the level of the old statement was
                 import_stmt.import_info = importutils.FromImport(
                     new_name,
-                    import_stmt.import_info.level,
+                    0,
                     import_stmt.import_info.names_and_aliases,
                 )
                 changed = True
